@@ -174,12 +174,13 @@ theorem delFromSort_frame (W : Tx → Prop) (s : State) (b : Nat) : Frame W s (d
 
 /-! ### the invariant carried through every operation -/
 
-/-- hypotheses on the universe `W` of transactions that occur in a history: the code's two index functions are
-    injective, a txid determines the transaction, every transaction has an input, and the spending relation is
-    acyclic (`rank`: a txid is a hash over the txids it spends) -/
+/-- hypotheses on the universe `W` of transactions that occur in a history: the code's two index functions do not
+    collide on them (BIDX separates their txids; the UIdx of an input equals the UIdx of an output of a
+    transaction only if the input names that transaction), a txid determines the transaction, every transaction
+    has an input, and the spending relation is acyclic (`rank`: a txid is a hash over the txids it spends) -/
 structure Univ (K : Keys) (W : Tx → Prop) (rank : TxId → Nat) : Prop where
-  bidx_inj : ∀ a b, K.bidx a = K.bidx b → a = b
-  uidx_inj : ∀ a b c d, K.uidx a b = K.uidx c d → a = c ∧ b = d
+  bidx_inj : ∀ a b, W a → W b → K.bidx a.id = K.bidx b.id → a.id = b.id
+  uidx_inj : ∀ c t, W c → W t → ∀ i ∈ c.ins, ∀ v, K.uidx i.prev i.vout = K.uidx t.id v → i.prev = t.id
   id_fun : ∀ a b, W a → W b → a.id = b.id → a = b
   ins_ne : ∀ a, W a → a.ins ≠ []
   acyclic : ∀ a, W a → ∀ i ∈ a.ins, rank i.prev < rank a.id
@@ -487,7 +488,7 @@ theorem processTx_InvR {K : Keys} {W : Tx → Prop} {rank : TxId → Nat} (U : U
                     | some old =>
                       exfalso
                       have k := d1.str.key _ old hx
-                      have e : old.tx = t := U.id_fun _ _ (d1.poolW _ old hx) ht (U.bidx_inj _ _ k)
+                      have e : old.tx = t := U.id_fun _ _ (d1.poolW _ old hx) ht (U.bidx_inj _ _ (d1.poolW _ old hx) ht k)
                       have hne := U.ins_ne t ht
                       cases hi : t.ins with
                       | nil => exact hne hi
@@ -564,14 +565,15 @@ theorem submitLocal_InvR {K : Keys} {W : Tx → Prop} {rank : TxId → Nat} (U :
 
 /-- a pooled spender of an output of `t` has a higher rank than `t` -/
 theorem child_rank {K : Keys} {W : Tx → Prop} {rank : TxId → Nat} (U : Univ K W rank) (s : State) (h : InvR K W s)
-    (id : TxId) (vout so : Nat) (c : T2S) (hs : s.spent.get? (K.uidx id vout) = some so)
-    (hc : s.pool.get? so = some c) : rank id < rank c.tx.id ∧ K.bidx c.tx.id = so := by
+    (t : Tx) (ht : W t) (vout so : Nat) (c : T2S) (hs : s.spent.get? (K.uidx t.id vout) = some so)
+    (hc : s.pool.get? so = some c) : rank t.id < rank c.tx.id ∧ K.bidx c.tx.id = so := by
   obtain ⟨c', hc', hu⟩ := h.str.sound _ _ hs
   rw [hc] at hc'; cases hc'
   obtain ⟨i, hi, e⟩ := List.mem_map.mp hu
-  have := (U.uidx_inj _ _ _ _ e).1
+  have hcW := h.poolW _ _ hc
+  have := U.uidx_inj c.tx t hcW ht i hi vout e
   rw [← this]
-  exact ⟨U.acyclic c.tx (h.poolW _ _ hc) i hi, h.str.key _ _ hc⟩
+  exact ⟨U.acyclic c.tx hcW i hi, h.str.key _ _ hc⟩
 
 theorem delWC_spec {K : Keys} {W : Tx → Prop} {rank : TxId → Nat} (U : Univ K W rank) (reason : Nat) :
     ∀ (fuel : Nat) (s : State) (t : T2S), InvR K W s → s.pool.get? (K.bidx t.tx.id) = some t →
@@ -615,7 +617,7 @@ theorem delWC_spec {K : Keys} {W : Tx → Prop} {rank : TxId → Nat} (U : Univ 
         · split
           · exact hc
           · rename_i so hso _ c hcc
-            obtain ⟨rk, kk⟩ := child_rank U cur hc.1 t.tx.id v so c hso hcc
+            obtain ⟨rk, kk⟩ := child_rank U cur hc.1 t.tx (h.poolW _ _ hin) v so c hso hcc
             obtain ⟨p1, p2⟩ := ih cur c hc.1 (by rw [kk]; exact hcc)
             exact ⟨p1, fun b x hx hr => p2 b x (hc.2 b x hx hr) (Nat.lt_of_le_of_lt hr rk)⟩
     obtain ⟨f1, f2⟩ := fold (iota t.tx.outs.length) s ⟨h, fun b x hx _ => hx⟩
@@ -739,6 +741,421 @@ theorem unminedFlags_spec {K : Keys} {W : Tx → Prop} (s : State) (t : T2S) (h 
     | exact same
     | exact ⟨InvR_of_frame h (Frame.of_eq rfl rfl rfl rfl rfl rfl), same.2⟩
     | exact setRec_InvR h _ _ rfl (by rw [‹s.pool.get? _ = some _›]; rfl) rfl rfl rfl
+
+
+
+theorem foldl_pair_inv {α : Type} (P : State → Prop) (f : Bool × State → α → Bool × State)
+    (hf : ∀ acc a, P acc.2 → P (f acc a).2) : ∀ (l : List α) (acc : Bool × State), P acc.2 → P (l.foldl f acc).2 := by
+  intro l
+  induction l with
+  | nil => intro acc h; exact h
+  | cons a r ih => intro acc h; exact ih _ (hf acc a h)
+
+/-- the loop body of txMined over the inputs, named -/
+def txMinedStep (K : Keys) (b : Nat) (wasIn : Bool) (acc : Bool × State) (i : TxIn) : Bool × State :=
+  let u := K.uidx i.prev i.vout
+  let s1 := if wasIn then acc.2 else
+    match acc.2.spent.get? u with
+    | none => acc.2
+    | some val => match acc.2.pool.get? val with
+      | some r => delWithChildren K 0 (acc.2.pool.length + 1) acc.2 r
+      | none => { acc.2 with spent := acc.2.spent.del u }
+  match s1.rejSpent.get? u with
+  | none => (acc.1, s1)
+  | some lst =>
+    let q := lst.foldl (fun (acc : Bool × State) rb =>
+      match acc.2.rej.get? rb with
+      | some txr => (acc.1 || rb = b, rejDelete K acc.2 txr)
+      | none => (acc.1, acc.2)) (acc.1, s1)
+    (q.1, { q.2 with rejSpent := q.2.rejSpent.del u })
+
+def txMined' (K : Keys) (s : State) (t : Tx) : State :=
+  let b := K.bidx t.id
+  let p : Bool × State := match s.pool.get? b with
+    | some r => (true, delOne K (minedFlags K s r) r 0)
+    | none => (false, s)
+  let q := t.ins.foldl (txMinedStep K b p.1) (false, p.2)
+  if q.1 || p.1 then q.2 else rejDeleteByIdx K q.2 b
+
+theorem txMined_eq (K : Keys) (s : State) (t : Tx) : txMined K s t = txMined' K s t := rfl
+
+theorem txMinedStep_InvR {K : Keys} {W : Tx → Prop} {rank : TxId → Nat} (U : Univ K W rank) (b : Nat) (wasIn : Bool)
+    (acc : Bool × State) (i : TxIn) (h : InvR K W acc.2) : InvR K W (txMinedStep K b wasIn acc i).2 := by
+  unfold txMinedStep
+  dsimp only
+  -- the pool part
+  have h1 : InvR K W (if wasIn then acc.2 else
+      match acc.2.spent.get? (K.uidx i.prev i.vout) with
+      | none => acc.2
+      | some val => match acc.2.pool.get? val with
+        | some r => delWithChildren K 0 (acc.2.pool.length + 1) acc.2 r
+        | none => { acc.2 with spent := acc.2.spent.del (K.uidx i.prev i.vout) }) := by
+    split
+    · exact h
+    · split
+      · exact h
+      · split
+        · rename_i r hr
+          exact (delWC_spec U 0 _ acc.2 r h (by rw [h.str.key _ _ hr]; exact hr)).1
+        · rename_i val hval _ hnone
+          obtain ⟨t', ht', _⟩ := h.str.sound _ _ hval
+          rw [hnone] at ht'; cases ht'
+  generalize (if wasIn then acc.2 else
+      match acc.2.spent.get? (K.uidx i.prev i.vout) with
+      | none => acc.2
+      | some val => match acc.2.pool.get? val with
+        | some r => delWithChildren K 0 (acc.2.pool.length + 1) acc.2 r
+        | none => { acc.2 with spent := acc.2.spent.del (K.uidx i.prev i.vout) }) = s1 at h1 ⊢
+  split
+  · exact h1
+  · rename_i lst _
+    have h2 := foldl_pair_inv (InvR K W) (fun (acc : Bool × State) rb =>
+      match acc.2.rej.get? rb with
+      | some txr => (acc.1 || rb = b, rejDelete K acc.2 txr)
+      | none => (acc.1, acc.2)) (by
+        intro a rb ha
+        split
+        · exact InvR_of_frame ha (rejDelete_frame K W _ _)
+        · exact ha) lst (acc.1, s1) h1
+    exact InvR_of_frame h2 (Frame.of_eq rfl rfl rfl rfl rfl rfl)
+
+theorem txMined_InvR {K : Keys} {W : Tx → Prop} {rank : TxId → Nat} (U : Univ K W rank) (s : State) (t : Tx)
+    (h : InvR K W s) : InvR K W (txMined K s t) := by
+  rw [txMined_eq]
+  unfold txMined'
+  dsimp only
+  have hp : InvR K W (match s.pool.get? (K.bidx t.id) with
+    | some r => (true, delOne K (minedFlags K s r) r 0)
+    | none => (false, s) : Bool × State).2 := by
+    split
+    · rename_i r hr
+      obtain ⟨m1, m2⟩ := minedFlags_spec (K := K) (W := W) s r h
+      obtain ⟨r', hr', e⟩ := m2 _ r hr
+      rw [delOne_congr K _ r r' 0 e.symm]
+      have k : K.bidx r'.tx.id = K.bidx t.id := by rw [e]; exact h.str.key _ _ hr
+      exact delOne_InvR K W _ r' 0 m1 (by rw [k]; exact hr')
+    · exact h
+  generalize (match s.pool.get? (K.bidx t.id) with
+    | some r => (true, delOne K (minedFlags K s r) r 0)
+    | none => (false, s) : Bool × State) = p at hp ⊢
+  have hq := foldl_pair_inv (InvR K W) (txMinedStep K (K.bidx t.id) p.1)
+    (fun acc i ha => txMinedStep_InvR U _ _ acc i ha) t.ins (false, p.2) hp
+  split
+  · exact hq
+  · exact InvR_of_frame hq (rejDeleteByIdx_frame K W _ _)
+
+theorem foldl_inv {α : Type} (P : State → Prop) (f : State → α → State)
+    (hf : ∀ s a, P s → P (f s a)) : ∀ (l : List α) (s : State), P s → P (l.foldl f s) := by
+  intro l
+  induction l with
+  | nil => intro s h; exact h
+  | cons a r ih => intro s h; exact ih _ (hf s a h)
+
+theorem blockMined_InvR {K : Keys} {W : Tx → Prop} {rank : TxId → Nat} (U : Univ K W rank) (mf : Nat) (s : State)
+    (txs : List Tx) (h : InvR K W s) : InvR K W (blockMined K mf s txs) := by
+  unfold blockMined
+  split
+  · exact h
+  · dsimp only
+    apply foldl_inv (InvR K W) _ (fun s t hs => txAccepted_InvR U mf s _ hs)
+    exact foldl_inv (InvR K W) _ (fun s t hs => txMined_InvR U s t hs) _ s h
+
+theorem connectUtxo_InvR {K : Keys} {W : Tx → Prop} (s : State) (hh : Nat) (txs : List Tx) (h : InvR K W s)
+    (hW : ∀ t ∈ txs, W t) : InvR K W (connectUtxo s hh txs) := by
+  unfold connectUtxo
+  split
+  rename_i u sc _
+  refine ⟨⟨h.str.key, h.str.sound, h.str.complete⟩, h.nodup, h.poolW, h.rejW, ?_⟩
+  intro e he t ht
+  simp only [List.mem_cons] at he
+  rcases he with rfl | he
+  · exact hW t ht
+  · exact h.undoW e he t ht
+
+theorem disconnectUtxo_InvR {K : Keys} {W : Tx → Prop} (s s' : State) (txs : List Tx) (h : InvR K W s)
+    (hd : disconnectUtxo s = some (s', txs)) : InvR K W s' ∧ ∀ t ∈ txs, W t := by
+  unfold disconnectUtxo at hd
+  split at hd
+  · cases hd
+  · rename_i txs0 sc rest hu
+    simp only [Option.some.injEq, Prod.mk.injEq] at hd
+    obtain ⟨rfl, rfl⟩ := hd
+    refine ⟨⟨⟨h.str.key, h.str.sound, h.str.complete⟩, h.nodup, h.poolW, h.rejW, ?_⟩, ?_⟩
+    · intro e he t ht
+      exact h.undoW e (by rw [hu]; exact List.mem_cons_of_mem _ he) t ht
+    · intro t ht
+      exact h.undoW (txs0, sc) (by rw [hu]; exact List.mem_cons_self) t ht
+
+theorem blockUndone_InvR {K : Keys} {W : Tx → Prop} {rank : TxId → Nat} (U : Univ K W rank) (mf : Nat) (s : State)
+    (txs : List Tx) (h : InvR K W s) (hW : ∀ t ∈ txs, W t) : InvR K W (blockUndone K mf s txs) := by
+  unfold blockUndone
+  split
+  · exact h
+  · have gen : ∀ (l : List Tx) (s : State), (∀ t ∈ l, W t) → InvR K W s →
+        InvR K W (l.foldl (fun s t =>
+          let s := rejDeleteByIdx K s (K.bidx t.id)
+          let (res, s) := processTx K mf s t { trusted := true, unmined := true }
+          if res = 0 then
+            match s.pool.get? (K.bidx t.id) with
+            | some r => unminedFlags K s r
+            | none => { s with panicked := true }
+          else { s with panicked := true }) s) := by
+      intro l
+      induction l with
+      | nil => intro s _ hs; exact hs
+      | cons t r ih =>
+        intro s hl hs
+        simp only [List.foldl_cons]
+        apply ih _ (fun t' ht' => hl t' (List.mem_cons_of_mem _ ht'))
+        have h1 := InvR_of_frame hs (rejDeleteByIdx_frame K W s (K.bidx t.id))
+        have h2 := processTx_InvR U mf _ t { trusted := true, unmined := true } h1 (hl t List.mem_cons_self)
+        split
+        · split
+          · exact (unminedFlags_spec _ _ h2).1
+          · exact InvR_of_frame h2 (Frame.of_eq rfl rfl rfl rfl rfl rfl)
+        · exact InvR_of_frame h2 (Frame.of_eq rfl rfl rfl rfl rfl rfl)
+    exact gen txs s hW h
+
+
+
+theorem evict_InvR (K : Keys) (W : Tx → Prop) : ∀ (l : List Nat) (s s' : State), InvR K W s → evict K s l = some s' →
+    InvR K W s' := by
+  intro l
+  induction l with
+  | nil => intro s s' h he; simp [evict] at he; rw [← he]; exact h
+  | cons b r ih =>
+    intro s s' h he
+    simp only [evict, List.foldlM_cons] at he
+    cases hb : s.pool.get? b with
+    | none => simp [hb] at he
+    | some t =>
+      simp only [hb] at he
+      by_cases hc : hasNoChildren K s t = true
+      · simp only [hc, if_true, Option.bind_eq_bind, Option.bind_some] at he
+        have hk := h.str.key b t hb
+        exact ih _ s' (delOne_InvR K W s t 0 h (by rw [hk]; exact hb)) he
+      · simp [hc] at he
+
+/-- the SpentOutputs map rebuilt by MempoolLoad from a list of records -/
+def rebuildSpent (K : Keys) (L : List (Nat × T2S)) (m0 : AList Nat Nat) : AList Nat Nat :=
+  L.foldl (fun (m : AList Nat Nat) p => p.2.tx.ins.foldl (fun m i => m.set (K.uidx i.prev i.vout) p.1) m) m0
+
+theorem rebuildSpent_cons (K : Keys) (p : Nat × T2S) (L : List (Nat × T2S)) (m0 : AList Nat Nat) :
+    rebuildSpent K (p :: L) m0 =
+      rebuildSpent K L (p.2.tx.ins.foldl (fun m i => m.set (K.uidx i.prev i.vout) p.1) m0) := rfl
+
+theorem rebuildSpent_sound (K : Keys) : ∀ (L : List (Nat × T2S)) (m0 : AList Nat Nat) (u x : Nat),
+    (rebuildSpent K L m0).get? u = some x →
+    (∃ p ∈ L, p.1 = x ∧ u ∈ uidxs K p.2.tx) ∨ m0.get? u = some x := by
+  intro L
+  induction L with
+  | nil => intro m0 u x h; exact Or.inr h
+  | cons p r ih =>
+    intro m0 u x h
+    rw [rebuildSpent_cons] at h
+    rcases ih _ u x h with ⟨q, hq, e⟩ | h2
+    · exact Or.inl ⟨q, List.mem_cons_of_mem _ hq, e⟩
+    · rw [get?_foldl_set (fun i => K.uidx i.prev i.vout) p.1 p.2.tx.ins m0 u] at h2
+      split at h2
+      · rename_i hm
+        cases h2
+        exact Or.inl ⟨p, List.mem_cons_self, rfl, hm⟩
+      · exact Or.inr h2
+
+theorem rebuildSpent_complete (K : Keys) (u b : Nat) : ∀ (L : List (Nat × T2S)) (m0 : AList Nat Nat),
+    (∀ p ∈ L, u ∈ uidxs K p.2.tx → p.1 = b) →
+    ((∃ p ∈ L, u ∈ uidxs K p.2.tx) ∨ m0.get? u = some b) →
+    (rebuildSpent K L m0).get? u = some b := by
+  intro L
+  induction L with
+  | nil =>
+    intro m0 _ h
+    rcases h with ⟨p, hp, _⟩ | h
+    · simp at hp
+    · exact h
+  | cons p r ih =>
+    intro m0 hall h
+    rw [rebuildSpent_cons]
+    apply ih _ (fun q hq => hall q (List.mem_cons_of_mem _ hq))
+    rw [get?_foldl_set (fun i => K.uidx i.prev i.vout) p.1 p.2.tx.ins m0 u]
+    by_cases hm : u ∈ uidxs K p.2.tx
+    · right
+      have : u ∈ List.map (fun i => K.uidx i.prev i.vout) p.2.tx.ins := hm
+      simp only [this, if_true]
+      rw [hall p List.mem_cons_self hm]
+    · have : ¬ u ∈ List.map (fun i => K.uidx i.prev i.vout) p.2.tx.ins := hm
+      simp only [this, if_false]
+      rcases h with ⟨q, hq, hu⟩ | h
+      · rcases List.mem_cons.mp hq with e | e
+        · rw [e] at hu; exact absurd hu hm
+        · exact Or.inl ⟨q, e, hu⟩
+      · exact Or.inr h
+
+
+
+/-- the record rewrite of MempoolLoad (MemInputs recomputed against the loaded pool) -/
+def reloadRec (K : Keys) (s : State) (_b : Nat) (t : T2S) : T2S :=
+  if t.mem.isEmpty then t
+  else { t with mem := if ((t.tx.ins.map fun i => s.pool.has (K.bidx i.prev)).filter id).length = 0 then []
+                       else t.tx.ins.map fun i => s.pool.has (K.bidx i.prev),
+                memCnt := ((t.tx.ins.map fun i => s.pool.has (K.bidx i.prev)).filter id).length }
+
+theorem reloadRec_tx (K : Keys) (s : State) (b : Nat) (t : T2S) : (reloadRec K s b t).tx = t.tx := by
+  unfold reloadRec; split <;> rfl
+
+def reloadPool (K : Keys) (s : State) : AList Nat T2S := s.pool.map fun p => (p.1, reloadRec K s p.1 p.2)
+
+def reloadBase (K : Keys) (s : State) : State :=
+  { cfg := s.cfg, pool := reloadPool K s, spent := rebuildSpent K (reloadPool K s) [],
+    weightTotal := (reloadPool K s).foldl (fun n p => n + p.2.tx.weight) 0, sorted := [], sortDirty := true,
+    sortDisabled := s.sortDisabled, utxo := s.utxo, height := s.height, undo := s.undo, panicked := s.panicked }
+
+def reloadRej (K : Keys) (s : State) (st : State) (slot : Option Nat) : State :=
+  match slot with
+  | none => st
+  | some b => match s.rej.get? b with
+    | none => st
+    | some r => rejAdd K st (if r.tx.isNone then { r with waiting4 := none } else r)
+
+theorem reload_eq (K : Keys) (s : State) : reload K s = s.ring.foldl (reloadRej K s) (reloadBase K s) := by
+  have e : (fun (x : Nat × T2S) => match x with
+      | (b, t) => if t.mem.isEmpty then (b, t) else
+        let mem := t.tx.ins.map fun i => s.pool.has (K.bidx i.prev)
+        let cnt := (mem.filter id).length
+        (b, { t with mem := if cnt = 0 then [] else mem, memCnt := cnt })) =
+      (fun p => (p.1, reloadRec K s p.1 p.2)) := by
+    funext x
+    obtain ⟨b, t⟩ := x
+    unfold reloadRec
+    dsimp only
+    split <;> rfl
+  unfold reload reloadBase reloadPool rebuildSpent
+  dsimp only
+  rw [e]
+  rfl
+
+theorem reloadPool_get (K : Keys) (s : State) (b : Nat) :
+    (reloadPool K s).get? b = (s.pool.get? b).map (reloadRec K s b) :=
+  AList.get?_map (reloadRec K s) s.pool b
+
+theorem reloadPool_keys (K : Keys) (s : State) : (reloadPool K s).map Prod.fst = s.pool.map Prod.fst := by
+  unfold reloadPool
+  rw [List.map_map]
+  rfl
+
+theorem reloadBase_InvR {K : Keys} {W : Tx → Prop} (s : State) (h : InvR K W s) : InvR K W (reloadBase K s) := by
+  have nd : ((reloadPool K s).map Prod.fst).Nodup := by rw [reloadPool_keys]; exact h.nodup
+  -- a record of the reloaded pool comes from a record of the old pool with the same transaction
+  have back : ∀ b t', (reloadPool K s).get? b = some t' → ∃ t, s.pool.get? b = some t ∧ t'.tx = t.tx := by
+    intro b t' ht'
+    rw [reloadPool_get] at ht'
+    cases hb : s.pool.get? b with
+    | none => rw [hb] at ht'; cases ht'
+    | some t => rw [hb] at ht'; cases ht'; exact ⟨t, rfl, reloadRec_tx K s b t⟩
+  refine ⟨⟨?_, ?_, ?_⟩, nd, ?_, ?_, h.undoW⟩
+  · intro b t' ht'
+    obtain ⟨t, ht, e⟩ := back b t' ht'
+    rw [e]; exact h.str.key b t ht
+  · intro u x hu
+    rcases rebuildSpent_sound K (reloadPool K s) [] u x hu with ⟨p, hp, e, hm⟩ | h0
+    · refine ⟨p.2, ?_, hm⟩
+      rw [← e]
+      exact AList.get?_of_mem _ _ _ nd hp
+    · simp [AList.get?] at h0
+  · intro b t' ht' u hu
+    apply rebuildSpent_complete K u b (reloadPool K s) []
+    · intro p hp hpu
+      have hp' : (reloadPool K s).get? p.1 = some p.2 := AList.get?_of_mem _ _ _ nd hp
+      obtain ⟨t1, ht1, e1⟩ := back p.1 p.2 hp'
+      obtain ⟨t2, ht2, e2⟩ := back b t' ht'
+      have c1 := h.str.complete p.1 t1 ht1 u (by rw [← e1]; exact hpu)
+      have c2 := h.str.complete b t2 ht2 u (by rw [← e2]; exact hu)
+      rw [c1] at c2
+      exact Option.some.inj c2
+    · exact Or.inl ⟨(b, t'), AList.mem_of_get? _ _ _ ht', hu⟩
+  · intro b t' ht'
+    obtain ⟨t, ht, e⟩ := back b t' ht'
+    rw [e]; exact h.poolW b t ht
+  · intro b r t hb _
+    simp [reloadBase, AList.get?] at hb
+
+theorem reload_InvR {K : Keys} {W : Tx → Prop} (s : State) (h : InvR K W s) : InvR K W (reload K s) := by
+  rw [reload_eq]
+  apply foldl_inv (InvR K W) (reloadRej K s) _ s.ring _ (reloadBase_InvR s h)
+  intro st slot hst
+  unfold reloadRej
+  split
+  · exact hst
+  · split
+    · exact hst
+    · rename_i b _ r hr
+      apply InvR_of_frame hst
+      apply rejAdd_frame
+      intro t ht
+      apply h.rejW b r t hr
+      split at ht
+      · exact ht
+      · exact ht
+
+theorem buildSorted_InvR {K : Keys} {W : Tx → Prop} (s : State) (h : InvR K W s) : InvR K W (buildSorted K s) := by
+  unfold buildSorted
+  split
+  · exact InvR_of_frame h (Frame.of_eq rfl rfl rfl rfl rfl rfl)
+  · exact h
+
+/-! ### all operations, all histories -/
+
+/-- the transactions an operation brings in -/
+def Op.txs : Op → List Tx
+  | .submitNet t _ _ => [t]
+  | .submitLocal t _ => [t]
+  | .block _ txs _ => txs
+  | _ => []
+
+theorem step_InvR {K : Keys} {W : Tx → Prop} {rank : TxId → Nat} (U : Univ K W rank) (s : State) (op : Op)
+    (h : InvR K W s) (hW : ∀ t ∈ op.txs, W t) : InvR K W (step K s op) := by
+  cases op with
+  | submitNet t tr mf => exact submitNet_InvR U mf s t tr h (hW t (by simp [Op.txs]))
+  | submitLocal t mf => exact submitLocal_InvR U mf s t h (hW t (by simp [Op.txs]))
+  | block hh txs mf => exact blockMined_InvR U mf _ txs (connectUtxo_InvR s hh txs h hW)
+  | undo mf =>
+    simp only [step]
+    cases hd : disconnectUtxo s with
+    | none => exact h
+    | some p =>
+      obtain ⟨s', txs⟩ := p
+      obtain ⟨h1, h2⟩ := disconnectUtxo_InvR s s' txs h hd
+      exact blockUndone_InvR U mf s' txs h1 h2
+  | tip hh => exact InvR_of_frame h (Frame.of_eq rfl rfl rfl rfl rfl rfl)
+  | expire old => exact expire_InvR U old s h
+  | evict v =>
+    simp only [step]
+    cases he : evict K s v with
+    | none => simpa using h
+    | some s' => simpa using evict_InvR K W v s s' h he
+  | resort => exact buildSorted_InvR s h
+  | commitFlag y => exact InvR_of_frame h (Frame.of_eq rfl rfl rfl rfl rfl rfl)
+  | reload => exact reload_InvR s h
+
+theorem run_InvR {K : Keys} {W : Tx → Prop} {rank : TxId → Nat} (U : Univ K W rank) :
+    ∀ (ops : List Op) (s : State), InvR K W s → (∀ op ∈ ops, ∀ t ∈ op.txs, W t) → InvR K W (run K s ops) := by
+  intro ops
+  induction ops with
+  | nil => intro s h _; exact h
+  | cons op r ih =>
+    intro s h hW
+    unfold run
+    simp only [List.foldl_cons]
+    exact ih _ (step_InvR U s op h (hW op List.mem_cons_self)) (fun o ho => hW o (List.mem_cons_of_mem _ ho))
+
+theorem InvR_init (K : Keys) (W : Tx → Prop) : InvR K W {} := by
+  refine ⟨⟨?_, ?_, ?_⟩, by simp, ?_, ?_, ?_⟩
+  · intro b t h; simp [AList.get?] at h
+  · intro u b h; simp [AList.get?] at h
+  · intro b t h; simp [AList.get?] at h
+  · intro b t h; simp [AList.get?] at h
+  · intro b r t h; simp [AList.get?] at h
+  · intro e he; simp at he
 
 
 end GocoinV.Mempool
